@@ -5,6 +5,7 @@ import (
 	"math"
 	"os"
 	"path/filepath"
+	"time"
 
 	v1 "github.com/lindb/lindb/index/v1"
 	"github.com/lindb/lindb/internal/venum"
@@ -164,8 +165,15 @@ func runKV(f *vevid.Flags, rep *vevid.Report, descs []caseDesc, dirName string, 
 		vevid.Fatal("create kv family: %v", err)
 	}
 
+	t0 := time.Now()
+	progress := func(what string) {
+		if os.Getenv("C20_PROGRESS") != "" {
+			fmt.Fprintf(os.Stderr, "[%6.1fs] %s\n", time.Since(t0).Seconds(), what)
+		}
+	}
 	// flush file r = part r of every case (bucket ids ascending, as the kv table builder requires)
 	flush := func(pick func(c *kvCase) *model) {
+		progress("flush")
 		kvFlusher := family.NewFlusher()
 		defer kvFlusher.Release()
 		fl, err := v1.NewIndexKVFlusher(math.MaxInt16, kvFlusher)
@@ -205,12 +213,20 @@ func runKV(f *vevid.Flags, rep *vevid.Report, descs []caseDesc, dirName string, 
 		defer s.Close()
 		return s.GetCurrent().NumberOfFilesInLevel(0)
 	}
-	readAll := func(stage string, want func(c *kvCase) *model) {
+	readAll := func(stage string, light bool, want func(c *kvCase) *model) {
+		progress("read " + stage)
 		snapshot := family.GetSnapshot()
 		defer snapshot.Close()
 		reader := v1.NewIndexKVReader(snapshot)
 		for i, c := range cases {
+			if i%64 == 0 && f.Expired() {
+				rep.Cap(fmt.Sprintf("deadline in kv stage %s at case %d of %d of this worker", stage, i, len(cases)))
+				return
+			}
 			wm := want(c)
+			if wm == nil {
+				continue
+			}
 			ck := &chk{rep: rep, desc: c.desc, kind: kindOf(c.desc), group: "kv", stage: stage, m: wm, small: c.desc.Kind == "subset"}
 			func() {
 				defer ck.guard("IndexKVReader.GetBucket")
@@ -223,7 +239,7 @@ func runKV(f *vevid.Flags, rep *vevid.Report, descs []caseDesc, dirName string, 
 					ck.bad("load", "IndexKVReader.GetBucket", "bucket id %d not found in the family", i+1)
 					return
 				}
-				ck.checkBucket(b, probeSet(wm, fewBytes), false)
+				ck.checkBucket(b, probeSet(wm, fewBytes), light)
 				b.Release()
 			}()
 			rep.Evaluations++
@@ -243,6 +259,7 @@ func runKV(f *vevid.Flags, rep *vevid.Report, descs []caseDesc, dirName string, 
 		ck.bad(clause, site, format, a...)
 	}
 	compact := func(tag string) {
+		progress(tag)
 		before := l0()
 		family.Compact()
 		kv.VerifFamilyWait(family)
@@ -266,13 +283,17 @@ func runKV(f *vevid.Flags, rep *vevid.Report, descs []caseDesc, dirName string, 
 	}
 	rep.Count("kv_cases", int64(len(cases)))
 	whole := func(c *kvCase) *model { return c.whole }
-	readAll("kv-flushed", whole)
+	// several files of one bucket id = several tries in one TrieBucket: the complete query oracle;
+	// after the compaction the bucket is a rebuilt single dictionary: the "holds exactly the union" oracle
+	// (the query clauses on single dictionaries are evaluated exhaustively in part enum)
+	readAll("kv-flushed", false, whole)
 	compact("first compaction")
-	readAll("kv-compacted", whole)
+	readAll("kv-compacted", true, whole)
 
 	if secondRound {
-		// two more files for every case: fresh keys that extend / precede the existing ones
-		extra := func(c *kvCase, r int) *model {
+		// large dictionaries only: two more files with fresh keys, then a second compaction - TrieBucket.Write now meets
+		// tries it wrote itself (a 65535-key trie of the 70000-key set is copied verbatim, the rest is rebuilt)
+		extra := func(r int) *model {
 			var ks []string
 			var vs []uint32
 			for j := 0; j < 2; j++ {
@@ -283,13 +304,26 @@ func runKV(f *vevid.Flags, rep *vevid.Report, descs []caseDesc, dirName string, 
 		}
 		ext := map[*kvCase]*model{}
 		for _, c := range cases {
-			ext[c] = union(c.whole, extra(c, 0), extra(c, 1))
+			if c.desc.Kind == "large" {
+				ext[c] = union(c.whole, extra(0), extra(1))
+			}
 		}
-		flush(func(c *kvCase) *model { return extra(c, 0) })
-		flush(func(c *kvCase) *model { return extra(c, 1) })
+		if len(ext) == 0 {
+			return
+		}
+		pick := func(r int) func(c *kvCase) *model {
+			return func(c *kvCase) *model {
+				if ext[c] == nil {
+					return nil
+				}
+				return extra(r)
+			}
+		}
+		flush(pick(0))
+		flush(pick(1))
 		all := func(c *kvCase) *model { return ext[c] }
-		readAll("kv-flushed-round2", all)
+		readAll("kv-flushed-round2", false, all)
 		compact("second compaction")
-		readAll("kv-compacted-round2", all)
+		readAll("kv-compacted-round2", true, all)
 	}
 }
